@@ -7,14 +7,19 @@
      - C01_row_cells: every emitted row declares exactly as many \cellx as it has \cell;
      - C01_tables_*: the regenerated code tables only contain simple, lower-case control words and
        the pass-1 replacement strings are balanced, valid fragments (finite, by computation).
-   Missing for the full statement (hence the _partial suffix on the pipeline-level corollary):
-   the proof that every item the model's render produces satisfies item_ok / cell_clean; this is
-   checked per case by the driver (wf_rtf on model and implementation tokens), not proved. *)
+     - C01_document (Proofs/DocumentWF.v): for EVERY document (single-, multi-section, figure) the tokens
+       the model's encode produces start with {\rtf1 and are exactly one brace-balanced top-level group,
+       provided the bodies of its text runs are brace-neutral (the property's text domain: user text
+       without unbalanced raw braces). Every structural part - code strings, paragraph formats, borders,
+       rows, page breaks, pictures, font / colour tables, page settings - is proved for all inputs.
+   Still missing for the full statement: clauses 3-5 of wf_rtf (lexical validity, \u ranges, per-row
+   cell counts) at document level; they are proved per item / per table and evaluated per case by
+   the driver (wf_rtf on the implementation's tokens). *)
 From Coq Require Import Ascii String.
 From Coq Require Import List NArith ZArith Bool.
 Local Open Scope string_scope.
 Local Open Scope list_scope.
-From V Require Import Str Tok Items WellFormed Tables EmitWF TablesWF.
+From V Require Import Str Tok Items WellFormed Tables Doc Case Pipeline Document EmitWF TablesWF DocumentWF ExampleDoc.
 Import ListNotations.
 
 Theorem C01_items_balanced : forall its, Forall item_ok its -> neutral (emit_items its).
@@ -45,6 +50,30 @@ Theorem C01_tables_fonts :
   /\ all_b (fun e => simple_code (fst (snd e)) && simple_code (fst (snd (snd e)))) font_table = true.
 Proof. exact (conj font_table_numbers font_table_codes_simple). Qed.
 Print Assumptions C01_tables_fonts.
+
+Theorem C01_document :
+  forall ctx d ts,
+    encode_with ctx d = Ok ts ->
+    (forall pages, document_pages ctx d = Ok pages -> bodies_ok (concat pages)) ->
+    comp_bodies_ok ctx (d_page_header d) -> comp_bodies_ok ctx (d_page_footer d) ->
+    starts_rtf ts = true /\ one_group ts = true.
+Proof. exact encode_one_group. Qed.
+Print Assumptions C01_document.
+
+(* non-vacuity at document level: the dumped state of a real RTFDocument (Gen/ExampleDoc.v, regenerated on every run:
+   page_by table over two pages, colours, title, footnote table, source paragraph, page header and footer) decodes,
+   encodes, meets the text-domain hypothesis, and its tokens are well-formed by computation as well *)
+Example C01_document_example :
+  match dDoc example_sexp with
+  | Some d =>
+    let ctx := Some (collect_colors d) in
+    match document_pages ctx d, encode d with
+    | Ok pages, Ok ts => bodies_okb (concat pages) = true /\ Nat.ltb 1 (length pages) = true /\ wf_rtf ts = true
+    | _, _ => False
+    end
+  | None => False
+  end.
+Proof. vm_compute. repeat split; reflexivity. Qed.
 
 (* non-vacuity: a concrete non-trivial row meets the hypotheses *)
 Example C01_row_example :
